@@ -3,7 +3,11 @@ Proof: coq/Props/C08.v (characterisations for all list / string lengths and all 
 Correspondence: every call is issued positionally and with named parameters through parse + evaluate of the working tree
 and compared with coq/C08/Model.v (list, string, aggregate, boolean, context functions), with coq/C08/Model2.v (sort with a
 `precedes` function, stddev, split / replace / matches on literal patterns; the Python reference of these
-must agree with the Coq model), or, for string / number, with a reference written here."""
+must agree with the Coq model), or, for string / number, with a reference written here.
+The numeric aggregates (sum, mean, median, stddev) compute in the model with the shared decimal128 layer coq/Base/DecRound.v
+(dadd / dsub / ddiv / dsqrt, the operations C02 proves correctly rounded); they are exercised on lists the old 34-digit assumption
+excluded (sums that round at every step, ties, overflow to null, tiny + huge, subnormal means, squares that round twice) and are
+compared with the real code, with the Coq model (exponent spans up to 400 digits) and with a libmpdec (Python decimal) reference."""
 import decimal
 import itertools
 import json
@@ -17,7 +21,7 @@ from props.c09 import V, num, st, lst, cx, rng, fun, date, VNULL, VTRUE, VFALSE
 
 HEADER = ('From Coq Require Import List NArith ZArith Bool.\nFrom DV Require Import C09.Values C09.Model C08.Model.\n'
           'Import ListNotations.\nOpen Scope Z_scope.\n')
-HEADER2 = ('From Coq Require Import List NArith ZArith Bool.\nFrom DV Require Import C09.Values C09.Model C08.Model C08.Model2 C08.StddevSqrt.\n'
+HEADER2 = ('From Coq Require Import List NArith ZArith Bool.\nFrom DV Require Import C09.Values C09.Model C08.Model C08.Model2.\n'
            'Import ListNotations.\nOpen Scope Z_scope.\n')
 ORIG = os.environ.get('C08_MODEL', '') == 'orig'      # development aid: compare with the model of the pinned commit
 POS = 'pos_orig' if ORIG else 'pos'
@@ -50,6 +54,30 @@ REF_NAMES = {'matches': {2: ['input', 'pattern']}, 'replace': {3: ['input', 'pat
 # ------------------------------------------------------------------ canonical forms
 def dnum(c, e):
     return Decimal('%dE%d' % (c, e))      # exact, independent of the context precision
+
+
+class NV(V):
+    """a number c * 10^e written as a FEEL expression (FEEL has no exponent literals); .dec = its exact value"""
+    __slots__ = ('dec',)
+
+
+def numx(c, e):
+    """the number c * 10^e (|c| < 10^34, -6176 <= e <= 6111: a decimal128 datum; c * 10**e is exact in the implementation)"""
+    assert abs(c) < 10 ** 34 and -6176 <= e <= 6111
+    if e == 0:
+        feel = str(c)
+    elif -30 <= e < 0:
+        digits = str(abs(c)).rjust(-e + 1, '0')
+        feel = ('-' if c < 0 else '') + digits[:e] + '.' + digits[e:]       # a plain literal keeps its scale: 1.50 is (150, -2)
+    else:
+        feel = '(%d*10**%d)' % (c, e)
+    v = NV(feel, '(VNum %s %s)' % (V9.z(c), V9.z(e)), 'num')
+    v.dec = dnum(c, e)
+    return v
+
+
+def vdec(v):
+    return v.dec if isinstance(v, NV) else Decimal(v.feel)
 
 
 def norm_impl(j):
@@ -105,7 +133,7 @@ def norm_v(v):
     if v.kind == 'boolean':
         return v.feel == 'true'
     if v.kind == 'num':
-        return ('n', Decimal(v.feel))
+        return ('n', vdec(v))
     if v.kind == 'str':
         return v.feel[1:-1]
     return ('o', v.feel)
@@ -262,19 +290,97 @@ def ref_call(name, args):
             return None
         if len(items) < 2 or any(i.kind != 'num' for i in items):
             return None
-        c = decimal.Context(prec=34, rounding=decimal.ROUND_HALF_EVEN, Emax=6144, Emin=-6143)
-        xs = [Decimal(i.feel) for i in items]
+        r = ref_aggregate('stddev', [vdec(i) for i in items])
+        return None if r is None else ('n', r)
+    raise KeyError
+
+
+# ------------------------------------------------------------------ libmpdec reference of sum / mean / median / stddev
+C34 = decimal.Context(prec=34, rounding=decimal.ROUND_HALF_EVEN, Emax=6144, Emin=-6143, clamp=1, traps=[])
+C37 = decimal.Context(prec=37, rounding=decimal.ROUND_HALF_EVEN, Emax=6144, Emin=-6143, clamp=1, traps=[])      # decNumberPower(x, 2): 34 + 1 + 2 digits
+
+
+def fin(d):
+    """null (None) for a result that is not a finite number"""
+    return d if d is not None and d.is_finite() else None
+
+
+def ref_square(d):
+    """FeelNumber::square: the product rounded to 37 digits, then to 34"""
+    return C34.plus(C37.multiply(d, d))
+
+
+def agg_items(name, args):
+    """the numbers a call of a numeric aggregate works on, None when it is not a call on numbers only"""
+    if len(args) == 1 and args[0].kind == 'list':
+        items = getattr(args[0], 'items', None)
+    elif len(args) >= 2 or (len(args) == 1 and name != 'stddev'):
+        items = args
+    else:
+        return None
+    if not items or any(i.kind != 'num' for i in items):
+        return None
+    return [vdec(i) for i in items]
+
+
+def ref_aggregate(name, xs):
+    """the value core.rs computes, operation by operation, with libmpdec (an independent implementation of IEEE 754-2008 decimal128);
+    a non-finite intermediate result stays non-finite, the final result is then null"""
+    if name == 'sum':
+        s = xs[0]
+        for x in xs[1:]:
+            s = C34.add(s, x)
+        return fin(s)
+    if name == 'mean':
         s = Decimal(0)
         for x in xs:
-            s = c.add(s, x)
+            s = C34.add(s, x)
+        return fin(C34.divide(s, Decimal(len(xs))))
+    if name == 'median':
+        l = sorted(xs)
+        k = len(l) // 2
+        if len(l) % 2 == 0:
+            return fin(C34.divide(C34.add(l[k - 1], l[k]), Decimal(2)))
+        return l[k]
+    if name == 'stddev':
+        if len(xs) < 2:
+            return None
+        s = Decimal(0)
+        for x in xs:
+            s = C34.add(s, x)
         n = Decimal(len(xs))
-        avg = c.divide(s, n)
+        avg = C34.divide(s, n)
         s2 = Decimal(0)
         for x in xs:
-            dlt = c.subtract(x, avg)
-            s2 = c.add(s2, c.multiply(dlt, dlt))
-        return ('n', c.sqrt(c.divide(s2, c.subtract(n, Decimal(1)))))
+            q = ref_square(C34.subtract(x, avg))
+            if not q.is_finite():
+                return None
+            s2 = C34.add(s2, q)
+        return fin(C34.sqrt(C34.divide(s2, C34.subtract(n, Decimal(1)))))
     raise KeyError
+
+
+def wide_for_coq(name, args):
+    """Base/Dec.v counts digits by repeated division: a sum of numbers whose digits span thousands of positions takes a minute in Coq.
+    Such calls (mean and stddev start from 0, so every number far from 1 is one) are compared with libmpdec only."""
+    xs = agg_items(name, args)
+    if not xs:
+        return False
+    nz = [x for x in xs if x != 0]
+    if not nz:
+        return False
+    exps = [x.as_tuple().exponent for x in xs] + ([0] if name in ('mean', 'stddev') else [])
+    if name == 'sum':
+        acc = xs[0]
+        for x in xs[1:-1]:
+            acc = C34.add(acc, x)
+            if acc == 0:
+                exps.append(0)          # a partial sum that cancels is reduced to 0E+0: the next addition spans down to exponent 0
+    hi = max(max(x.adjusted() for x in nz), max(exps))
+    return hi - min(exps) > 400
+
+
+AGG = ('sum', 'mean', 'median', 'stddev')
 
 
 # ------------------------------------------------------------------ the second model file (coq/C08/Model2.v)
@@ -298,7 +404,9 @@ def coq_ref_term(name, args):
     if name == 'replace' and len(args) == 3 and (args[1].kind != 'str' or literal(args[1])) and '$' not in args[2].feel:
         return 'b_replace %s %s %s' % (args[0].coq, args[1].coq, args[2].coq)
     if name == 'stddev':
-        return 'pos_stddev_dec [%s]' % '; '.join(a.coq for a in args)      # square root: Base/DecRound.v dsqrt (C02/Sqrt.v)
+        if wide_for_coq(name, args):
+            return None         # exponents thousands of digits apart: too slow in Coq (ndigits), libmpdec reference only
+        return 'pos_stddev [%s]' % '; '.join(a.coq for a in args)      # all arithmetic: Base/DecRound.v (C02: correctly rounded)
     return None
 
 
@@ -344,6 +452,104 @@ def lstv(*vs):
     x = LV(b.feel, b.coq, 'list')
     x.items = list(vs)
     return x
+
+
+N34 = 10 ** 34 - 1
+# operands whose square FeelNumber::square rounds differently from the correctly rounded product (37-digit intermediate ends in 500 / 499..)
+SQUARE_WITNESSES = [(10684414991928191245, 0), (937428563637741499122048, 0), (586940504458955264613, 0), (3466772939162165125852, 0),
+                    (21923737484694362627434111, -7), (7457802933188070211305279607310, -20), (414281490290469809702688017683129, 3),
+                    (1251, -3090), (2499, -3090), (7501, -3090), (8749, -3090), (11251, -3090), (12499, -3090)]      # the last six: on the subnormal grid
+
+
+def hard_number_lists(ctx):
+    """number lists the old `sums stay within 34 digits` assumption excluded; (class, [numbers])"""
+    r = ctx.rng
+    out = []
+    add = lambda cls, *pairs: out.append((cls, [numx(c, e) for c, e in pairs]))
+    # sums of 34-digit numbers: every step rounds; exact ties (both parities), just above / below a tie
+    for k in (N34, N34 - 1, 5 * 10 ** 33, 5 * 10 ** 33 + 1, 1234567890123456789012345678901234, 1234567890123456789012345678901233):
+        for tail in ((5, -1), (50000001, -8), (49999999, -8), (-5, -1), (15, -1), (25, -1), (1, 0), (5, -20)):
+            add('tie', (k, 0), tail)
+            add('tie', tail, (k, 0), (k, 0))
+            add('tie', (-k, 3), (tail[0], tail[1] + 3), (1, 2))
+    for _ in range(ctx.pick(60, 600)):
+        n = r.randint(2, 7)
+        e0 = r.choice([0, 0, -2, -10, 5, -30, 20])
+        add('round', *[(r.choice([1, 1, -1]) * r.randint(10 ** 32, N34), e0 + r.choice([0, 0, 0, 1, -1, 2, -3])) for _ in range(n)])
+    for _ in range(ctx.pick(40, 400)):
+        n = r.randint(1, 6)
+        items = []
+        for _ in range(n):
+            nd = r.choice([1, 5, 17, 33, 34, 34])
+            items.append((r.choice([1, 1, -1]) * r.randint(10 ** (nd - 1), 10 ** nd - 1), r.choice([0, 0, -3, -20, 10, -33, 30])))
+        add('mixed', *items)
+    # the order of the items matters; tiny + huge
+    add('order', (1, 34), (5, 0), (5, 0))
+    add('order', (5, 0), (5, 0), (1, 34))
+    add('order', (1, 33), (5, -1), (5, -1))
+    add('order', (5, -1), (5, -1), (1, 33))
+    add('absorb', (1, 40), (1, -40))
+    add('absorb', (1, 40), (1, -40), (-1, 40))
+    add('absorb', (1, -40), (1, 40), (-1, 40))
+    add('absorb', (N34, 0), (-N34, 0), (1, -10))
+    add('absorb', (1, -10), (N34, 0), (-N34, 0))
+    add('absorb', (1, 300), (1, -300), (7, 0))
+    add('absorb', (25, -1), (35, -1), (1, 34), (-1, 34))
+    add('absorb-wide', (1, 3080), (-1, 3080), (5, 0))
+    add('absorb-wide', (9, 6111), (1, 0), (2, 0))
+    add('absorb-wide', (1, -6176), (1, 6111))
+    add('absorb-wide', (1, -6176), (1, 0))
+    # overflow: null, also when later items would bring the sum back; the largest number that is still a result
+    big = (N34, 6111)
+    add('overflow', big, (5, 6110))
+    add('overflow', big, (4, 6110))
+    add('overflow', big, big)
+    add('overflow', (-N34, 6111), (-5, 6110))
+    add('overflow', (-N34, 6111), (-4, 6110))
+    add('overflow', big, (5, 6110), (-(N34 - 1), 6111))
+    add('overflow', big, (-(N34 - 1), 6111), (5, 6110))
+    add('overflow', big, big, (-N34, 6111), (-N34, 6111))
+    add('overflow', big, (-N34, 6111), big, (-N34, 6111))
+    add('overflow', (9 * 10 ** 33, 6111), (9 * 10 ** 33, 6111))
+    add('overflow', (9 * 10 ** 33, 6111), (9 * 10 ** 33, 6111), (-9 * 10 ** 33, 6111))
+    add('overflow', (9 * 10 ** 33, 6111), (-9 * 10 ** 33, 6111), (9 * 10 ** 33, 6111))
+    add('overflow', (5 * 10 ** 33, 6111), (5 * 10 ** 33, 6111))
+    add('overflow', (5 * 10 ** 33, 6111), (4999999999999999999999999999999999, 6111), (5, 6110))
+    add('overflow', (1, 6111), (2, 6111), big)
+    add('overflow', (1, 3080), (1, 3080))            # the squares of stddev overflow
+    add('overflow', (1, 3070), (3, 3072), (-2, 3071))
+    # the subnormal grid: exact sums, quotients that underflow gradually, ties on the grid
+    for l in ([(1, -6176)] * 3, [(1, -6176), (2, -6176)], [(3, -6176), (4, -6176)], [(1, -6176), (1, -6176), (1, -6176), (2, -6176)], [(1, -6176)],
+              [(5, -6176), (-2, -6176)], [(1, -6143), (1, -6176), (1, -6176)], [(1, -6160), (3, -6170)], [(N34, -6176), (1, -6176)],
+              [(1, -3080), (3, -3080), (2, -3080)], [(1251, -3090), (0, 0), (0, 0)], [(1, -3088), (-1, -3088)], [(15, -3089), (-15, -3089), (0, 0)]):
+        add('subnormal', *l)
+    # quotients that are exact ties: (a + b) / 2 and s / n with a 35th digit 5
+    add('div-tie', (4999999999999999999999999999999999, 0), (5 * 10 ** 33, 0))
+    add('div-tie', (4999999999999999999999999999999998, 0), (4999999999999999999999999999999999, 0))
+    add('div-tie', (N34, 0), (N34 - 1, 0))
+    add('div-tie', (N34, 0), (N34 - 2, 0))
+    add('div-tie', (N34, -5), (0, 0))
+    add('div-tie', (N34 - 2, -5), (0, 0))
+    add('div-tie', (N34, 7), (0, 0), (0, 0), (0, 0))
+    add('div-tie', (1, 0), (0, 0), (0, 0))
+    add('div-tie', (2, 0), (0, 0), (0, 0))
+    add('div-tie', (1, 0), (2, 0), (4, 0), (0, 0), (0, 0), (0, 0), (0, 0))
+    # stddev: deviations whose squares round twice (mean 0, deviation = the witness), constant lists, large spreads
+    for c, e in SQUARE_WITNESSES:
+        add('square', (c, e), (-c, e))
+        add('square', (c, e), (-c, e), (0, 0))
+        add('square', (2 * c, e), (0, 0), (-2 * c, e), (0, 0))
+    for _ in range(ctx.pick(30, 300)):
+        nd = r.randint(18, 34)
+        c = r.randint(10 ** (nd - 1), 10 ** nd - 1)
+        e = r.choice([0, -10, 10, -40])
+        add('square', (c, e), (-c, e))
+    add('stddev', (N34, 0), (N34, 0), (N34, 0))
+    add('stddev', (N34, 0), (-N34, 0))
+    add('stddev', (1, 0), (1, 0), (1, 0), (1, 0))
+    add('stddev', (1, 20), (1, -20))
+    add('stddev', (123456789012345678901234567890, -4), (987654321098765432109876543210, -5), (1, -5), (33333333333333333333333333333333, -2))
+    return out
 
 
 def gen_cases(ctx):
@@ -432,6 +638,15 @@ def gen_cases(ctx):
     for bad in nonlists:
         for f in ('min', 'max', 'sum', 'mean', 'median', 'mode', 'all', 'any', 'stddev'):
             add(f, bad)
+    # --- the same aggregates on lists that need rounding, overflow, underflow (hard_number_lists)
+    for cls, items in hard_number_lists(ctx):
+        for f in ('sum', 'mean', 'median', 'stddev') + (('min', 'max', 'mode') if cls in ('tie', 'overflow', 'subnormal', 'order') else ()):
+            add(f, lstv(*items))
+            if 2 <= len(items) <= 4 and (cls != 'round' or r.random() < 0.3):
+                add(f, *items)
+        if r.random() < 0.1:
+            add('sum', lstv(*(items + [VNULL])))
+            add('mean', lstv(*([st('a')] + items)))
     # --- all / any over every list of length 0..3 (4 in the thorough tier) of {true, false, null, 1}
     atoms = [VTRUE, VFALSE, VNULL, num('1')]
     for k in range(0, ctx.pick(4, 5)):
@@ -544,6 +759,54 @@ def known_class(ctx, name, args, spec, got):
     return False
 
 
+def check_squares(ctx):
+    """FeelNumber::square (decNumberPower(x, 2), the squares of stddev) against coq/C08/Model.v nsquare (two roundings: 37 digits, then 34)
+    and libmpdec; returns the counts for the coverage record"""
+    r = ctx.rng
+    xs = list(SQUARE_WITNESSES) + [(0, 0), (0, 5), (-1, -7), (1, 3072), (1, 3073), (32, 3071), (316227766016837933199889354443271853 // 100, 3039),
+                                   (N34, 3039), (N34, 3038), (1, -3088), (3, -3089), (5, -3090), (75, -3089), (123456789, -3093), (N34, -3100), (N34, -3110), (N34, 0), (N34, -17)]
+    for _ in range(ctx.pick(150, 1500)):
+        nd = r.randint(1, 34)
+        xs.append((r.choice([1, -1]) * r.randint(10 ** (nd - 1), 10 ** nd - 1), r.choice([0, -5, 20, -3075, -3080, -3090, -3100, 3050, 3060, 3070])))
+    found = 0
+    tries = 0
+    while found < ctx.pick(6, 40) and tries < 200000:          # operands where the two roundings differ from the one rounding of x * x (about 1 in 2000)
+        tries += 1
+        nd = r.randint(18, 34)
+        c = r.randint(10 ** (nd - 1), 10 ** nd - 1)
+        d = Decimal(c)
+        if C34.multiply(d, d) != ref_square(d):
+            xs.append((c, r.choice([0, -12, 9])))
+            found += 1
+    impl = ctx.run_impl('num', [{'op': 'square', 'a': '%dE%d' % (c, e)} for c, e in xs])
+    model = ctx.run_model(HEADER2, ['nsquare (%s, %s)' % (V9.z(c), V9.z(e)) for c, e in xs], tag='sq%d' % os.getpid())
+    twice = 0
+    for (c, e), ri, m in zip(xs, impl, model):
+        ctx.evaluations += 1
+        ctx.corr_checked += 1
+        d = dnum(c, e)
+        case = {'function': 'FeelNumber::square', 'positional': '%dE%d' % (c, e), 'named': None}
+        if 'r' not in ri:
+            ctx.violation('FeelNumber::square(%dE%d) does not answer: %s' % (c, e, ri), case, impl=ri)
+            continue
+        iv = None if ri['r'] is None else Decimal(ri['r']['n'])
+        iv = iv if iv is not None and iv.is_finite() else None
+        mv = None
+        if isinstance(m, App) and m.name == 'Some':
+            pc, pe = m.args[0]
+            mv = dnum(pc, pe)
+        pv = fin(ref_square(d))
+        if pv != mv:
+            ctx.broken.append('C08: libmpdec and coq/C08/Model.v nsquare disagree on %dE%d: %s / %s' % (c, e, pv, mv))
+        if iv != mv:
+            ctx.corr_broken('FeelNumber::square differs from nsquare', case, str(iv), str(mv))
+        elif iv is not None:
+            ctx.nontrivial.add('square %dE%d' % (c, e))
+            if iv != fin(C34.multiply(d, d)):
+                twice += 1
+    return {'operands': len(xs), 'result_differs_from_the_correctly_rounded_product': twice}
+
+
 def run(ctx):
     ctx.proof_gate()
     ctx.build_harness()
@@ -562,18 +825,21 @@ def run(ctx):
                 orders = [list(q) for q in perms]
         e = [positional_text(name, args)] + [named_text(name, pn, args, o) for o in orders]
         reqs.append({'e': '[%s, null]' % ', '.join(e)})
+        wide = name in BIFS and name in AGG and wide_for_coq(name, args)
         if name in BIFS:
-            terms.append('[%s]' % '; '.join([coq_pos(name, args)] + [coq_nam(name, pn, args, o) for o in orders]))
+            if not wide:
+                terms.append('[%s]' % '; '.join([coq_pos(name, args)] + [coq_nam(name, pn, args, o) for o in orders]))
         else:
             t2 = coq_ref_term(name, args)
             if t2 is not None:
                 idx2.append(len(meta))
                 terms2.append(t2)
-        meta.append((name, args, pn, orders))
+        meta.append((name, args, pn, orders, wide))
     impl = ctx.run_impl('feel', reqs, shards=16)
     model = ctx.run_model(HEADER, terms, shard_size=max(200, len(terms) // 16 + 1), tag='calls%d' % os.getpid())
     model2 = dict(zip(idx2, ctx.run_model(HEADER2, terms2, shard_size=max(50, len(terms2) // 16 + 1), tag='ref%d' % os.getpid())))
     model2_calls = {}
+    mpdec_only, mpdec_checked = {}, {}
     mi = iter(model)
     per_bif = {}
     dbg = []
@@ -582,13 +848,13 @@ def run(ctx):
     def shw(x):
         return 'a panic' if x == 'TRAP' else show(x)
 
-    for ix, ((name, args, pn, orders), ri) in enumerate(zip(meta, impl)):
+    for ix, ((name, args, pn, orders, wide), ri) in enumerate(zip(meta, impl)):
         ctx.evaluations += 1
         per_bif[name] = per_bif.get(name, 0) + 1
         ptext = positional_text(name, args)
         ntexts = [named_text(name, pn, args, o) for o in orders]
         case = {'function': name, 'positional': ptext, 'named': ntexts[-1] if ntexts else None}
-        m = next(mi) if name in BIFS else None
+        m = next(mi) if name in BIFS and not wide else None
         v = ri.get('v')
         if 'panic' in ri or 'crash' in ri:
             # find out which of the spellings traps
@@ -600,9 +866,21 @@ def run(ctx):
         else:
             got = [norm_impl(x) for x in v[:-1]]
         ip, inns = got[0], got[1:]
-        if name in BIFS:
+        if name in BIFS and wide:
+            # digits thousands of positions apart: the libmpdec reference alone (it is cross-checked with the Coq model on every other call)
+            rv = ref_aggregate(name, agg_items(name, args))
+            sp = None if rv is None else ('n', rv)
+            sns = [sp] * len(ntexts)
+            mpdec_only[name] = mpdec_only.get(name, 0) + 1
+        elif name in BIFS:
             spec = [norm_opt(x) for x in m]
             sp, sns = spec[0], spec[1:]
+            xs = agg_items(name, args) if name in AGG else None
+            if xs:
+                rv = ref_aggregate(name, xs)
+                mpdec_checked[name] = mpdec_checked.get(name, 0) + 1
+                if (None if rv is None else ('n', rv)) != sp:
+                    ctx.broken.append('C08: libmpdec and the Coq model (Base/DecRound.v) disagree on %s: %s / %s' % (ptext, rv, shw(sp)))
         else:
             try:
                 sp = ref_call(name, args)
@@ -642,6 +920,7 @@ def run(ctx):
                 ctx.violation('named and positional invocation differ: %s gives %s, %s gives %s' % (ptext, shw(ip), ntext, shw(inn)), ncase,
                               impl={'positional': shw(ip), 'named': shw(inn)})
                 break
+    squares = check_squares(ctx)
     if os.environ.get('C08_DEBUG'):
         seen = {}
         for d in dbg:
@@ -651,23 +930,30 @@ def run(ctx):
             for d in ds[:int(os.environ.get('C08_DEBUG'))]:
                 print('      %s -> impl %s, specified %s' % (d[2], d[3], d[4]))
     for i in (5, len(cases) // 3, len(cases) // 2):
-        name, args, pn, orders = meta[i]
+        name, args, pn, orders, _ = meta[i]
         ctx.sample({'call': positional_text(name, args), 'impl': impl[i].get('v')})
     return ctx.finish(
         rule='substring: 11 strings over ASCII / BMP / supplementary planes x every start position from -(n+2) to n+2, 0, 1.0, -1.0, 1.5, 0.5, 2.00, 0.0, n.0, null, a string, 2^64, -2^63-1 '
              'x every length from -1 to n+2, 1.0, 1.5, 0.5, 0.0, 2.9, absent, null, a string, 2^64; sublist / remove / insert before: 14 lists of length 0..8 (duplicates, equal numbers with '
              'different scale, nulls, nested lists, contexts, dates) x the same positions and lengths; index of / list contains: every list x 12 elements; union / concatenate / append: pairs and triples; '
-             'min max sum mean median mode stddev: random number lists of length 0..8 with duplicates and scales plus null / string / mixed lists, list form and variadic form; all / any: every list '
+             'min max sum mean median mode stddev: random number lists of length 0..8 with duplicates and scales plus null / string / mixed lists, list form and variadic form; '
+             'sum mean median stddev (no assumption on the size of a sum): lists of 34-digit numbers whose sums round at every step, exact ties of both parities and values just beside a tie, '
+             'order-dependent sums, tiny + huge, overflow to null (at the threshold, in the middle of a list, negative, in the even median and in the squares of stddev), the subnormal grid '
+             '(exact sums, quotients that underflow gradually, ties on the grid), quotients that are exact ties, deviations whose square FeelNumber::square rounds twice, each compared with the '
+             'Coq model over Base/DecRound.v (digit spans up to 400) and with libmpdec (all; the two must agree); FeelNumber::square itself on witnesses of the double rounding, the subnormal '
+             'grid, the overflow edge and random operands; all / any: every list '
              'over {true, false, null, 1} up to length %d; string predicates and substring before / after: every string x its prefixes, suffixes, infixes, non-matches, the empty string; '
              'every function with 0..5 arguments; each call positionally and with named parameters (declared order + one random permutation of the names in the quick tier, all permutations in the thorough tier). non-trivial = a call whose result is not null'
              % ctx.pick(3, 4),
         extra_cov={'calls_per_function': per_bif, 'named_invocations': named_calls, 'functions': len(per_bif), 'model_variant': 'orig' if ORIG else 'current',
-                   'validated_only': ['number', 'string'], 'second_model_calls': model2_calls},
-        assumptions=['sums stay within 34 digits (operands are generated that small)', 'regular expressions: literal alphanumeric patterns only, no flags',
+                   'validated_only': ['number', 'string'], 'second_model_calls': model2_calls,
+                   'numeric_aggregates_coq_and_libmpdec': mpdec_checked, 'numeric_aggregates_libmpdec_only': mpdec_only, 'feelnumber_square': squares},
+        assumptions=['regular expressions: literal alphanumeric patterns only, no flags',
                      'named forms of the variadic aggregates are compared with the positional form for list arguments only (f(true) is the variadic spelling)'],
-        trusted=['references for string and number are written in Python, not proved; the square root of stddev in the correspondence is Base/DecRound.v dsqrt (C02/Sqrt.v: correctly rounded), in the theorem an argument',
+        trusted=['references for string and number are written in Python, not proved',
+                 'numeric aggregates whose digits span more than 400 positions (mean / stddev of numbers far from 1: the loops start from 0) are compared with libmpdec only: Base/Dec.v counts digits by repeated division (a minute per operation in Coq)',
                  'sort: the ordering functions issued are `x < y` and `x > y` (C09 v_lt / v_gt in the model); Rust leaves slice::sort_by open for relations that are not strict weak orders, the model and the theorems cover strict weak orders',
-                 'the Rust regex engine, decNumber arithmetic (division / square root) are sampled, not modelled in depth'])
+                 'the Rust regex engine is sampled, not modelled; the decNumber kernel is tied to Base/DecRound.v by correspondence only (C02), the 37-digit intermediate rounding of decNumberPower(x, 2) by the square cases here'])
 
 
 def replay(ctx, path):
@@ -687,5 +973,5 @@ def replay(ctx, path):
 
 MANIFEST = dict(
     technique='Coq proof (one Gallina function per built-in transliterating bifs/core.rs with the positional and named dispatch; characterisation theorems for all list / string lengths and positions; named = positional) with model/code correspondence on boundary-exhaustive argument tuples',
-    text='Theorems (coq/Props/C08.v, closed under the global context) characterise the modelled built-ins for lists and strings of any length and every position / length argument (substring, sublist, insert before, remove: window semantics from 1, negative positions from the end, null exactly outside the domain; index of, list contains, union, distinct values, flatten, reverse, append, concatenate, count, min, max, sum, mean, median, mode, all, any, not, string predicates, substring before / after, get value, get entries) and show that the named dispatch gives the positional result. mode is exact (C08_mode, C08_mode_is_determined: strictly ascending, each member the first item of its value with maximal multiplicity, every most frequent value present; the conditions determine the list); median is the middle order statistic(s) (C08_median_order_statistic, determined up to numeric equality); the number sort of median / mode is the stable ascending sort (C08_number_sort_stable); sort(list, precedes) is a permutation for every relation and, when precedes is a strict weak order on the items (boolean hypothesis swo_on; every strict total order is one), sorted, stable, and the only such list (C08_sort_by_precedes, C08_sort_is_determined); stddev is the square root (an argument of the model) of the sum of the rounded squared deviations from the mean over n - 1 (C08_stddev); split / replace / matches on literal patterns: join(split(s, d), d) = s, no piece contains d, replace = split then join with the replacement, a pattern that does not occur changes nothing, the recursive equations (C08_split_join ... C08_replace_equation). Tied to feel-evaluator/src/bifs by issuing every generated call positionally and with named parameters through parse + evaluate and comparing with the model (sort: including the order of tied items 1 / 1.0); string and number are validated against references, not proved.',
-    note='Trusted: Coq kernel + vm_compute, hand-written model of bifs/core.rs, positional.rs, named.rs (correspondence-checked), Python references for string / number, harness. Regex dialect beyond literal patterns, decNumber division / power / sqrt rounding and number-to-text conversion (C07) are outside the theorems.')
+    text='Theorems (coq/Props/C08.v, closed under the global context) characterise the modelled built-ins for lists and strings of any length and every position / length argument (substring, sublist, insert before, remove: window semantics from 1, negative positions from the end, null exactly outside the domain; index of, list contains, union, distinct values, flatten, reverse, append, concatenate, count, min, max, sum, mean, median, mode, all, any, not, string predicates, substring before / after, get value, get entries) and show that the named dispatch gives the positional result. The numeric aggregates compute in the model with the SHARED decimal128 layer coq/Base/DecRound.v (dadd / dsub / ddiv / dsqrt, the operations C02 proves correctly rounded; no private arithmetic, no assumption on the size of a sum): sum is the left-to-right fold of correctly rounded additions starting with the first item, null once a step overflows (C08_sum_is_rounded_fold, C08_add_correctly_rounded: null exactly at the decimal128 overflow threshold, otherwise within half a unit of the 34-digit quantum, ties to even, exact when the sum fits); mean is the correctly rounded quotient of the rounded sum from 0 by the count (C08_mean_correctly_rounded); median is the middle item of the stable number sort or the correctly rounded half of the correctly rounded sum of the two middle items (C08_median_spec, C08_median_order_statistic); stddev is the exact sequence of rounded operations of core.rs (C08_stddev_spec: sum from 0, / n, squared deviations added from 0, / (n - 1), sqrt; the square is FeelNumber::square = decNumberPower(x, 2), which rounds twice, 37 then 34 digits: C08_square_two_roundings, C08_square_is_not_the_rounded_product); every aggregate of numbers in format is null or a number in format (C08_aggregates_in_format). mode is exact (C08_mode, C08_mode_is_determined); the number sort of median / mode is the stable ascending sort (C08_number_sort_stable); sort(list, precedes) is a permutation for every relation and, when precedes is a strict weak order on the items, sorted, stable, and the only such list (C08_sort_by_precedes, C08_sort_is_determined); split / replace / matches on literal patterns: join(split(s, d), d) = s, no piece contains d, replace = split then join with the replacement, a pattern that does not occur changes nothing, the recursive equations (C08_split_join ... C08_replace_equation). Tied to feel-evaluator/src/bifs by issuing every generated call positionally and with named parameters through parse + evaluate and comparing with the model (sort: including the order of tied items 1 / 1.0; numeric aggregates: also lists whose sums round at every step, ties, overflow, underflow, tiny + huge, compared with the Coq model and with libmpdec); string and number are validated against references, not proved.',
+    note='Trusted: Coq kernel + vm_compute, hand-written model of bifs/core.rs, positional.rs, named.rs (correspondence-checked), Python references for string / number, harness. Regex dialect beyond literal patterns and number-to-text conversion (C07) are outside the theorems; the decNumber kernel is tied to Base/DecRound.v by correspondence (C02 and the aggregate / square cases here); numeric aggregate calls whose digits span more than 400 positions are compared with libmpdec only (digit counting in Coq is too slow there).')
